@@ -128,6 +128,14 @@ Definition write_reject (o : options) (p : patch) (rejected : nat) (h : hunk) : 
 Definition shift_hunk (h : hunk) (d : Z) : hunk :=
   mkHunk (mkRange (sadd (rstart (oldr h)) d) (rcount (oldr h))) (mkRange (sadd (rstart (newr h)) d) (rcount (newr h))) (body h).
 
+(* the locate step of apply_patch: a patch which creates a file (old file /dev/null) claims there is nothing
+   there yet, which does not fit a file with content *)
+Definition creates_file (p : patch) : bool := str_eqb (old_path p) (bs "/dev/null").
+
+Definition locate_for (p : patch) (lines : list line) (h : hunk) (ws : bool) (offset max_fuzz : Z) (ln : nat) : option location :=
+  if creates_file p && negb (is_nil lines) && Z.eqb (rstart (oldr h)) 0 && Z.eqb (rcount (oldr h)) 0 then None
+  else locate_hunk lines h ws offset max_fuzz ln.
+
 (* ---- apply_patch ---- *)
 Record astate := mkAS {
   a_out : list line;        (* lines written to the output so far *)
@@ -185,7 +193,7 @@ Fixpoint apply_rest (o : options) (p : patch) (lines : list line) (hunk_num : na
   match hs with
   | [] => Ok s
   | h :: r =>
-      let loc := locate_hunk lines h (ignore_whitespace o) (a_offerr s) (max_fuzz o) (a_ln s) in
+      let loc := locate_for p lines h (ignore_whitespace o) (a_offerr s) (max_fuzz o) (a_ln s) in
       do s' <- apply_one o p lines hunk_num s h loc;
       apply_rest o p lines (S hunk_num) s' r
   end.
@@ -195,7 +203,7 @@ Definition apply_first (o : options) (p : patch) (lines : list line) (s : astate
   match hs with
   | [] => Ok s
   | h :: r =>
-      let loc := locate_hunk lines h (ignore_whitespace o) (a_offerr s) (max_fuzz o) (a_ln s) in
+      let loc := locate_for p lines h (ignore_whitespace o) (a_offerr s) (max_fuzz o) (a_ln s) in
       if should_check_if_patch_is_reversed loc o then
         let rh := reverse_hunk h in
         let rloc := locate_hunk lines rh (ignore_whitespace o) (a_offerr s) (max_fuzz o) (a_ln s) in
